@@ -11,11 +11,13 @@ EXPLANATION = (
     "send ServerClosedChannel{n, code, text} to that slot's reply queue, the same to each of that slot's drained consumers, queue Channel.CloseOk on n; it "
     "performs no drain/iteration over the slot table, no state change and no seal. A pending wake-up for the removed slot is tolerated (Ok), the handle's "
     "failed send surfaces the queued error before EventLoopDropped, and removal returns the id to the free set. Every other arm addresses only the slot "
-    "of its own frame's channel (shared with C03). Interleavings with calls on other threads are covered only through this per-arm isolation.")
+    "of its own frame's channel (shared with C03). The arm is reached whatever else channel n was doing (the paths into it form a complete decision tree over "
+    "everything tested before the dispatch), the consumers are told before the channel's caller is released (so a consumer being dropped cannot turn the close "
+    "into a connection-wide failure: D12), and a reply still unread cannot fill the slot's reply queue. Interleavings with calls on other threads are covered only through this per-arm isolation.")
 ASSUMPTIONS = ["crossbeam/mio_extras channels: a dropped sender disconnects the receiver; FIFO per channel", "C03's addressing rule covers the other arms"]
 RULE_TEXT = "obligations: the arm script, absence of cross-channel effects, stale wake-up row, handle error-order rows, id reuse; distinct = distinct keys"
 LEVEL_TEXT = ("Structural decision that a server channel close touches slot n only, answers CloseOk on n, notifies exactly that channel's caller and consumers with the "
-              "server's code/text, that stale wake-ups are tolerated, error order on the handle, and that the id is freed. Cross-thread interleavings are not explored.")
+              "server's code/text (consumers first, then the caller), that the arm is reached unconditionally, that stale wake-ups are tolerated, error order on the handle, and that the id is freed. Cross-thread interleavings are not explored.")
 LEVEL_NOTE = "Trusts rustc HIR resolution and the channel libraries' disconnect semantics; arm script oracle hand-written."
 TECHNIQUE = "static analysis: ordered effect script of the dispatch arm vs oracle; path tables of the handle's error handling"
 
